@@ -190,6 +190,8 @@ class Interp:
                         if nm == "__len__":
                             return self.truth(self.compare(ast.NotEq(), r, 0))
                         return self.truth(r)
+            if "__data__" in v.fields:
+                return self.truth(v.fields["__data__"])
             hook = self.spec.opaque_hooks.get("obj_truth")
             if hook:
                 r = hook(self, v)
@@ -344,6 +346,10 @@ class Interp:
     def _bind_classattr(self, val, obj):
         if isinstance(val, FuncVal) and val.owner is None:
             return BoundMethod(obj, val)
+        if isinstance(val, Obj) and isinstance(val.cls, ClassInfo):
+            g = val.cls.find("__get__", self.loader)
+            if g and g[1] == "method":
+                return self.call_func(g[2], [val, obj, obj.cls], {})
         return val
 
     def class_attr(self, cls, name):
@@ -619,6 +625,8 @@ class Interp:
             f = container.cls.find("__contains__", self.loader)
             if f and f[1] == "method":
                 return self.call_func(f[2], [container, item], {})
+            if "__data__" in container.fields:
+                return self.contains(container.fields["__data__"], item)
         if isinstance(container, Opaque):
             hook = self.spec.opaque_hooks.get("contains")
             if hook:
